@@ -38,6 +38,13 @@ CHECKS.update({
    note="Trusts the reference interpreter (about 400 lines, boring by construction) and the builder's printer; constructs whose meaning the statement leaves open are outside the alphabet (reported as reference_undefined, not as failures).",
    design="4/C02"),
 })
+CHECKS.update({
+ "C05": dict(
+   technique="bounded-exhaustive enumeration of builder-operation sequences over FS/FC/FA, run-time state-access trace (cfg-guarded hooks) checked against the published layout on every sample (shape E)",
+   text="Every program of the state-layout, closure and aggregate families below the bound is run on VM and WASM with the state-access trace on; every self/mem/delay access must coincide in offset, size and kind with a cell of the published dsp state skeleton and lie inside the storage, the cursor must be 0 after every dsp call, and VM and WASM state words must agree after every sample.",
+   note="Relies on hooks in vm.rs / wasm.rs (additive, cfg mimium_verif). Closure-private storages are checked for bounds only. Input streams are chosen so that both arms of generated conditionals run.",
+   design="4/C05"),
+})
 NOT_YET = {}
 
 def main():
